@@ -291,9 +291,9 @@ theorem remove_locks_before_unlink :
 /-- (the leading `store:tree`, `store:list` is the empty-bin case: `root` and `first` of a bin
 that no reader can have reached through the tree yet). Since the repair of finding F9 the source
 takes the write lock *before* the store to `first`; the model in this file still prepends and
-links before it locks (the order that is linearizable for readers that follow the lock protocol,
-which is what the theorems above are about) — the model with the new order and with list readers
-(iterators) is `stepG true true` of the next revision of `Proto/BinT`. -/
+links before it locks (linearizable for readers that follow the lock protocol, which is what the
+theorems of this file are about). The model of the code as it is now — lock first, and readers
+that walk the list without the lock (iterators) — is `Proto/BinU` (`Props/C01BinU.lean`). -/
 theorem insert_locks_before_prepend :
     findOrPutTreeValOrder = ["store:tree", "store:list", "lock_root", "store:list", "store:tree", "unlock_root"] := by
   decide
